@@ -362,6 +362,7 @@ func CompileList(list List) (f Object) {
 					return &Dynamic{
 						Function: Function{
 							Name: name,
+							Args: args,
 							Self: &lc,
 						},
 					}
